@@ -31,18 +31,18 @@ import (
 	"github.com/AdguardTeam/urlfilter/rules"
 )
 
-func init() { factSections = append(factSections, factsGroupF) }
+func init() { factSections = append(factSections, fFactsSection) }
 
-// gfRepoDir is the directory of the urlfilter module this binary was compiled
+// fRepoDir is the directory of the urlfilter module this binary was compiled
 // from (follows the replace directive of go.mod).
-func gfRepoDir() string {
+func fRepoDir() string {
 	f := runtime.FuncForPC(reflect.ValueOf(urlfilter.NewDNSEngine).Pointer())
 	file, _ := f.FileLine(f.Entry())
 
 	return filepath.Dir(file)
 }
 
-func gfParseDir(dir string) (fset *token.FileSet, files []*ast.File) {
+func fParseDir(dir string) (fset *token.FileSet, files []*ast.File) {
 	fset = token.NewFileSet()
 	ents, err := os.ReadDir(dir)
 	if err != nil {
@@ -63,14 +63,14 @@ func gfParseDir(dir string) (fset *token.FileSet, files []*ast.File) {
 	return fset, files
 }
 
-func gfFindFunc(files []*ast.File, recv, name string) *ast.FuncDecl {
+func fFindFunc(files []*ast.File, recv, name string) *ast.FuncDecl {
 	for _, f := range files {
 		for _, d := range f.Decls {
 			fd, ok := d.(*ast.FuncDecl)
 			if !ok || fd.Name.Name != name {
 				continue
 			}
-			if gfRecvType(fd) == recv {
+			if fRecvType(fd) == recv {
 				return fd
 			}
 		}
@@ -79,7 +79,7 @@ func gfFindFunc(files []*ast.File, recv, name string) *ast.FuncDecl {
 	return nil
 }
 
-func gfRecvType(fd *ast.FuncDecl) string {
+func fRecvType(fd *ast.FuncDecl) string {
 	if fd.Recv == nil || len(fd.Recv.List) == 0 {
 		return ""
 	}
@@ -94,7 +94,7 @@ func gfRecvType(fd *ast.FuncDecl) string {
 	return ""
 }
 
-func gfRecvName(fd *ast.FuncDecl) string {
+func fRecvName(fd *ast.FuncDecl) string {
 	if fd.Recv == nil || len(fd.Recv.List) == 0 || len(fd.Recv.List[0].Names) == 0 {
 		return ""
 	}
@@ -104,7 +104,7 @@ func gfRecvName(fd *ast.FuncDecl) string {
 
 // ---- definite assignment of fields of one variable -------------------------
 
-func gfUnion(a, b map[string]bool) map[string]bool {
+func fUnion(a, b map[string]bool) map[string]bool {
 	for k := range b {
 		a[k] = true
 	}
@@ -112,10 +112,10 @@ func gfUnion(a, b map[string]bool) map[string]bool {
 	return a
 }
 
-// gfAssigned returns the fields of variable v definitely assigned by stmts;
+// fAssigned returns the fields of variable v definitely assigned by stmts;
 // calls maps "pkg.Func"/"Func" whose FIRST argument is v to the fields that
 // function definitely assigns through its first parameter.
-func gfAssigned(stmts []ast.Stmt, v string, calls map[string]map[string]bool) map[string]bool {
+func fAssigned(stmts []ast.Stmt, v string, calls map[string]map[string]bool) map[string]bool {
 	out := map[string]bool{}
 	for _, st := range stmts {
 		switch s := st.(type) {
@@ -138,21 +138,21 @@ func gfAssigned(stmts []ast.Stmt, v string, calls map[string]map[string]bool) ma
 						name = f.Sel.Name
 					}
 					if fs, ok3 := calls[name]; ok3 {
-						gfUnion(out, fs)
+						fUnion(out, fs)
 					}
 				}
 			}
 		case *ast.BlockStmt:
-			gfUnion(out, gfAssigned(s.List, v, calls))
+			fUnion(out, fAssigned(s.List, v, calls))
 		case *ast.IfStmt:
 			if s.Else != nil {
-				a := gfAssigned(s.Body.List, v, calls)
+				a := fAssigned(s.Body.List, v, calls)
 				var b map[string]bool
 				switch e := s.Else.(type) {
 				case *ast.BlockStmt:
-					b = gfAssigned(e.List, v, calls)
+					b = fAssigned(e.List, v, calls)
 				default:
-					b = gfAssigned([]ast.Stmt{e}, v, calls)
+					b = fAssigned([]ast.Stmt{e}, v, calls)
 				}
 				for k := range a {
 					if b[k] {
@@ -166,7 +166,7 @@ func gfAssigned(stmts []ast.Stmt, v string, calls map[string]map[string]bool) ma
 	return out
 }
 
-func gfSortedKeys(m map[string]bool) []string {
+func fSortedKeys(m map[string]bool) []string {
 	ks := make([]string, 0, len(m))
 	for k := range m {
 		ks = append(ks, k)
@@ -176,7 +176,7 @@ func gfSortedKeys(m map[string]bool) []string {
 	return ks
 }
 
-func gfLeanStrings(ss []string) string {
+func fLeanStrings(ss []string) string {
 	qs := make([]string, len(ss))
 	for i, s := range ss {
 		qs[i] = fmt.Sprintf("%q", s)
@@ -187,22 +187,22 @@ func gfLeanStrings(ss []string) string {
 
 // ---- lock regions -----------------------------------------------------------
 
-type gfAccess struct{ fn, field, rw, lock string }
+type fAccess struct{ fn, field, rw, lock string }
 
-var gfGuarded = map[string]map[string]bool{
+var fGuarded = map[string]map[string]bool{
 	"RuleStorage":  {"cache": true},
 	"FileRuleList": {"File": true, "buffer": true},
 	"NetworkRule":  {"regex": true, "invalid": true},
 }
 
-type gfLockWalker struct {
+type fLockWalker struct {
 	recv   string
 	fields map[string]bool
 	fn     string
-	out    *[]gfAccess
+	out    *[]fAccess
 }
 
-func gfLockName(held []string) string {
+func fLockName(held []string) string {
 	if len(held) == 0 {
 		return "none"
 	}
@@ -212,7 +212,7 @@ func gfLockName(held []string) string {
 
 // lockCall recognises `<recv>.Lock()`, `<recv>.<mu>.RLock()` … and returns the
 // lock token ("Lock(recv)", "RLock(cacheMu)") and whether it acquires.
-func (w *gfLockWalker) lockCall(e ast.Expr) (tok string, acquire, ok bool) {
+func (w *fLockWalker) lockCall(e ast.Expr) (tok string, acquire, ok bool) {
 	c, isCall := e.(*ast.CallExpr)
 	if !isCall {
 		return "", false, false
@@ -248,7 +248,7 @@ func (w *gfLockWalker) lockCall(e ast.Expr) (tok string, acquire, ok bool) {
 	return "", false, false
 }
 
-func (w *gfLockWalker) record(e ast.Expr, held []string, write bool) {
+func (w *fLockWalker) record(e ast.Expr, held []string, write bool) {
 	ast.Inspect(e, func(n ast.Node) bool {
 		switch x := n.(type) {
 		case *ast.FuncLit:
@@ -262,7 +262,7 @@ func (w *gfLockWalker) record(e ast.Expr, held []string, write bool) {
 				if write {
 					rw = "w"
 				}
-				*w.out = append(*w.out, gfAccess{fn: w.fn, field: x.Sel.Name, rw: rw, lock: gfLockName(held)})
+				*w.out = append(*w.out, fAccess{fn: w.fn, field: x.Sel.Name, rw: rw, lock: fLockName(held)})
 			}
 		}
 
@@ -271,7 +271,7 @@ func (w *gfLockWalker) record(e ast.Expr, held []string, write bool) {
 }
 
 // lhsBase strips index expressions: `s.cache[i] = r` writes s.cache.
-func gfLhsBase(e ast.Expr) ast.Expr {
+func fLhsBase(e ast.Expr) ast.Expr {
 	for {
 		ix, ok := e.(*ast.IndexExpr)
 		if !ok {
@@ -281,7 +281,7 @@ func gfLhsBase(e ast.Expr) ast.Expr {
 	}
 }
 
-func (w *gfLockWalker) block(stmts []ast.Stmt, held []string) {
+func (w *fLockWalker) block(stmts []ast.Stmt, held []string) {
 	for _, st := range stmts {
 		switch s := st.(type) {
 		case *ast.ExprStmt:
@@ -308,7 +308,7 @@ func (w *gfLockWalker) block(stmts []ast.Stmt, held []string) {
 			w.record(s.Call, held, false)
 		case *ast.AssignStmt:
 			for _, l := range s.Lhs {
-				base := gfLhsBase(l)
+				base := fLhsBase(l)
 				w.record(base, held, true)
 				if ix, ok := l.(*ast.IndexExpr); ok {
 					w.record(ix.Index, held, false)
@@ -370,28 +370,28 @@ func (w *gfLockWalker) block(stmts []ast.Stmt, held []string) {
 	}
 }
 
-func gfLockTable(dirs ...string) (rows []gfAccess) {
+func fLockTable(dirs ...string) (rows []fAccess) {
 	for _, dir := range dirs {
-		_, files := gfParseDir(dir)
+		_, files := fParseDir(dir)
 		for _, f := range files {
 			for _, d := range f.Decls {
 				fd, ok := d.(*ast.FuncDecl)
 				if !ok || fd.Body == nil {
 					continue
 				}
-				rt := gfRecvType(fd)
-				fields, guarded := gfGuarded[rt]
-				if !guarded || gfRecvName(fd) == "" {
+				rt := fRecvType(fd)
+				fields, guarded := fGuarded[rt]
+				if !guarded || fRecvName(fd) == "" {
 					continue
 				}
-				w := &gfLockWalker{recv: gfRecvName(fd), fields: fields, fn: rt + "." + fd.Name.Name, out: &rows}
+				w := &fLockWalker{recv: fRecvName(fd), fields: fields, fn: rt + "." + fd.Name.Name, out: &rows}
 				w.block(fd.Body.List, nil)
 			}
 		}
 	}
 	// dedup + sort
-	seen := map[gfAccess]bool{}
-	var out []gfAccess
+	seen := map[fAccess]bool{}
+	var out []fAccess
 	for _, r := range rows {
 		if !seen[r] {
 			seen[r] = true
@@ -416,8 +416,8 @@ func gfLockTable(dirs ...string) (rows []gfAccess) {
 	return out
 }
 
-func factsGroupF(p func(format string, a ...any)) {
-	repo := gfRepoDir()
+func fFactsSection(p func(format string, a ...any)) {
+	repo := fRepoDir()
 	p("-- group F (C13): fields of rules.Request (reflect) and the fields definitely assigned when a pooled request is refilled")
 	var fields []string
 	rt := reflect.TypeOf(rules.Request{})
@@ -425,26 +425,26 @@ func factsGroupF(p func(format string, a ...any)) {
 		fields = append(fields, rt.Field(i).Name)
 	}
 	sort.Strings(fields)
-	p("def requestFields : List String := %s", gfLeanStrings(fields))
+	p("def requestFields : List String := %s", fLeanStrings(fields))
 
-	_, rulesFiles := gfParseDir(filepath.Join(repo, "rules"))
-	_, rootFiles := gfParseDir(repo)
+	_, rulesFiles := fParseDir(filepath.Join(repo, "rules"))
+	_, rootFiles := fParseDir(repo)
 	assigned := map[string]bool{}
-	if fill := gfFindFunc(rulesFiles, "", "FillRequestForHostname"); fill != nil && len(fill.Type.Params.List) > 0 &&
+	if fill := fFindFunc(rulesFiles, "", "FillRequestForHostname"); fill != nil && len(fill.Type.Params.List) > 0 &&
 		len(fill.Type.Params.List[0].Names) > 0 {
-		fillSet := gfAssigned(fill.Body.List, fill.Type.Params.List[0].Names[0].Name, nil)
-		if get := gfFindFunc(rootFiles, "DNSEngine", "getRequestFromPool"); get != nil {
+		fillSet := fAssigned(fill.Body.List, fill.Type.Params.List[0].Names[0].Name, nil)
+		if get := fFindFunc(rootFiles, "DNSEngine", "getRequestFromPool"); get != nil {
 			v := "req"
 			if get.Type.Results != nil && len(get.Type.Results.List) > 0 && len(get.Type.Results.List[0].Names) > 0 {
 				v = get.Type.Results.List[0].Names[0].Name
 			}
-			assigned = gfAssigned(get.Body.List, v, map[string]map[string]bool{"FillRequestForHostname": fillSet})
+			assigned = fAssigned(get.Body.List, v, map[string]map[string]bool{"FillRequestForHostname": fillSet})
 		}
 	}
-	p("def requestAssignedOnRefill : List String := %s", gfLeanStrings(gfSortedKeys(assigned)))
+	p("def requestAssignedOnRefill : List String := %s", fLeanStrings(fSortedKeys(assigned)))
 	p("")
 	p("-- group F (C14): accesses to the guarded fields through the method receiver: (function, field, r/w, lock held)")
-	rows := gfLockTable(filepath.Join(repo, "filterlist"), filepath.Join(repo, "rules"))
+	rows := fLockTable(filepath.Join(repo, "filterlist"), filepath.Join(repo, "rules"))
 	p("def lockTable : List (String × String × String × String) := [")
 	for i, r := range rows {
 		sep := ","
